@@ -40,6 +40,11 @@ def gen_step(rnd, names, kinds):
     if k == 'setnp':
         return ['req', 'set', {'name': name, 'options': {'numprocesses': rnd.choice([-1, 0, 1, 2, 4])},
                                'waiting': wait}]
+    if k == 'setopt':
+        opt = rnd.choice([{'env': {'A': 'b'}}, {'args': '--x 1'}, {'working_dir': '/tmp'}, {'graceful_timeout': 0.3},
+                          {'warmup_delay': 0.1}, {'max_age': 0}, {'shell': False}, {'stop_signal': 15},
+                          {'max_age_variance': 5}, {'send_hup': False}, {'env': {'A': 'b'}, 'numprocesses': 2}])
+        return ['req', 'set', {'name': name, 'options': opt, 'waiting': wait}]
     if k == 'restart':
         return ['req', 'restart', {'name': name, 'waiting': wait}]
     if k == 'reload':
